@@ -130,3 +130,15 @@ package panos
 //vc:  inline
 //vc:  hypothesis[C17] secretFree(name) && secretFree(ip) && secretFree(user)
 //vc:  ensures[C17] @loginErrorClean result != nil ==> cleanAny(result)
+
+// ---- C03: group reuse kernel ----
+// A device address-group is reused for a Netspoc group only if no other
+// Netspoc group was bound to it before, and only if it has exactly the same
+// members in the same order; the name handed back is the name of that group.
+//vc:func (*rulesPair).findGroupOnDevice
+//vc:  invariant[C03] 1 "for _, ga := range ab.a.vsys.AddressGroups" true
+//vc:  invariant[C03] 2 "for i, n := range gb.Members" @membersEqualSoFar -1 <= rangeindex && (forall k int :: { gb.Members[k] } 0 <= k && k <= rangeindex ==> gb.Members[k] == ga.Members[k])
+//vc:  assert[C03] at "ga.needed = true" @deviceGroupBoundOnce !ga.needed && len(ga.Members) == len(gb.Members) && (forall k int :: { gb.Members[k] } 0 <= k && k < len(gb.Members) ==> gb.Members[k] == ga.Members[k])
+//vc:  assert[C03] at "gb.nameOnDevice = ga.Name" @netspocGroupBoundOnce gb.nameOnDevice == ""
+//vc:func (*rulesPair).adaptGroups
+//vc:  invariant[C03] 1 "for i, adr := range lb" true
